@@ -1,5 +1,5 @@
 From Coq Require Import ZArith List Bool.
-From RV Require Import Base.Wire Base.Text Lang.Lex Lang.PyLayout Lang.Layout Lang.DispatchSpec Lang.EmitBlocks.
+From RV Require Import Base.Wire Base.Text Lang.Rx Lang.Lex Lang.PyLayout Lang.Layout Lang.DispatchSpec Lang.EmitBlocks Lang.LineShapes Lang.LineDispatch Gen.LineRx.
 Import ListNotations.
 Open Scope Z_scope.
 
@@ -149,8 +149,60 @@ Definition lookn (t : list (text * list (list text))) (k : text) : list (list te
 
 Definition enc_span (r : list text * nat) : wv := wok [wtexts (fst r); wnat (snd r)].
 
+(* ---- statement recognisers (Lang/Rx.v, Lang/LineDispatch.v, Gen/LineRx.v) *)
+Definition searched_ids : list Z :=
+  flat_map (fun s => match s with StSearch i _ => [i] | _ => [] end) chain.
+Definition rx_verdict (line : text) (p : Z * rx) : bool :=
+  if existsb (Z.eqb (fst p)) searched_ids then rx_search_nb (snd p) None line else rx_match (snd p) line.
+Definition enc_handler (h : handler) : wv :=
+  match h with
+  | HImport i => WL [WI 0; WI i] | HEq t => WL [WI 1; wtext t] | HPrefix t => WL [WI 2; wtext t]
+  | HRx i => WL [WI 3; WI i] | HSearch i => WL [WI 4; WI i] | HAssign => WL [WI 5] | HTail => WL [WI 6]
+  end.
+Fixpoint un_sets (l : list wv) : option (list (list text)) :=
+  match l with
+  | [] => Some []
+  | x :: r => match un_texts x, un_sets r with Some a, Some b => Some (a :: b) | _, _ => None end
+  end.
+Definition un_bool (v : wv) : option bool := match v with WI 0 => Some false | WI 1 => Some true | _ => None end.
+Fixpoint un_gaps (l : list wv) : option (list text) :=
+  match l with
+  | [] => Some []
+  | x :: r => match un_text x, un_gaps r with Some a, Some b => Some (a :: b) | _, _ => None end
+  end.
+
 Definition run (v : wv) : wv :=
   match v with
+  | WL [WI 17; l] =>
+      (* every regenerated RE_* pattern on the line, in table order *)
+      match un_text l with
+      | Some t => wok [WL (map (fun p => wbool (rx_verdict t p)) rx_table)]
+      | None => wbad end
+  | WL [WI 18; a; WL ss; l] =>
+      (* the dispatch loop: patterns tried with outcome, handler; the recognisers parse() applies first *)
+      match un_bool a, un_sets ss, un_text l with
+      | Some asg, Some sets, Some t =>
+          let r := dispatch chain asg sets t in
+          wok [WL (map (fun e => WL [WI (fst e); wbool (snd e)]) (fst r)); enc_handler (snd r);
+               wtext (lead_ident t); wbool (top_target t)]
+      | _, _, _ => wbad end
+  | WL [WI 20; WI k; nm; me; ar; WL gs] =>
+      (* SPEC renderers of the spacing theorems: the line, is it inside the guard, what its shape says *)
+      match un_text nm, un_text me, un_text ar, un_gaps gs with
+      | Some name, Some meth, Some args, Some [g0; g1; g2; g3; g4] =>
+          let gaps_ok := gap g0 && gap g1 && gap g2 && gap g3 && gap g4 in
+          match k with
+          | 0 => wok [wtext (line_call0 name meth g0 g1 g2 g3); wbool (gaps_ok && is_ident name && is_nil g1 && is_nil g2);
+                      wbool (rx_match (sh_method0 meth) (line_call0 name meth g0 g1 g2 g3))]
+          | 1 => wok [wtext (line_call name meth args g0 g1 g2 g3 g4); wbool (gaps_ok && is_ident name && one_line args && is_nil g1 && is_nil g2);
+                      wbool (rx_match (sh_method meth) (line_call name meth args g0 g1 g2 g3 g4))]
+          | 2 => wok [wtext (line_decl name meth args g0 g1 g2 g3 g4); wbool (gaps_ok && is_ident name && one_line args);
+                      wbool (rx_match (sh_decl meth) (line_decl name meth args g0 g1 g2 g3 g4))]
+          | 3 => wok [wtext (line_sleep args g0 g1 g2); wbool (gaps_ok && one_line args && negb (is_nil args));
+                      wbool (rx_match sh_sleep (line_sleep args g0 g1 g2))]
+          | _ => werr 1
+          end
+      | _, _, _, _ => wbad end
   | WL [WI 0; l] => match un_text l with Some t => wok [wnat (indent_of t)] | None => wbad end
   | WL [WI 1; l] => match un_text l with Some t => wok [wtext (strip_inline_comment t)] | None => wbad end
   | WL [WI 2; ls; st] =>
